@@ -619,6 +619,68 @@ func lightMedium(c *Ctx, prop string, undo bool) {
 			}
 		}
 	}
+	// aligned-union family: one block deleting any union of up to three disjoint aligned blocks
+	// (whole subtrees and single leaves mixed). (a) 16 leaves, every union, remember all / even
+	// slots; (b) 32 leaves, unions confined to the left half, remember even slots or just two leaves
+	// {i, j} of the first eight (quick: j = i+2; thorough: every pair); (c) thorough: 24, 32 and 33
+	// leaves, every union, remember all / even slots.
+	type auCfg struct {
+		N, within int
+		rems      [][]int
+	}
+	mk := func(N int) (all, evens []int) {
+		for i := 0; i < N; i++ {
+			all = append(all, i)
+			if i%2 == 0 {
+				evens = append(evens, i)
+			}
+		}
+		return
+	}
+	var cfgs []auCfg
+	a16, e16 := mk(16)
+	cfgs = append(cfgs, auCfg{16, 16, [][]int{a16, e16}})
+	_, e32 := mk(32)
+	pairs := [][]int{e32}
+	for i := 0; i < 8; i++ {
+		for j := i + 1; j < 8; j++ {
+			if j == i+2 || c.Thorough() {
+				pairs = append(pairs, []int{i, j})
+			}
+		}
+	}
+	cfgs = append(cfgs, auCfg{32, 16, pairs})
+	if c.Thorough() {
+		for _, N := range []int{24, 32, 33} {
+			a, e := mk(N)
+			cfgs = append(cfgs, auCfg{N, N, [][]int{a, e}})
+		}
+	}
+	c.Cov.Bound["aligned_unions"] = "N=16 all unions; N=32 unions within the left half with two-leaf remember sets; thorough: N=24,32,33 all unions"
+	for _, cf := range cfgs {
+		rems := cf.rems
+		if prop == "C11" {
+			rems = [][]int{{}}
+		}
+		for _, S := range alignedUnions(cf.N, 3) {
+			if S[len(S)-1] >= cf.within {
+				continue
+			}
+			for _, R := range rems {
+				for _, k := range []int{0, 1} {
+					kr := []int{}
+					if k == 1 && prop != "C11" {
+						kr = []int{0}
+					}
+					h := []Op{{Kind: "block", Adds: cf.N, Rem: R}, {Kind: "block", Dels: S, Adds: k, Rem: kr}}
+					if undo {
+						h = append(h, Op{Kind: "undo"})
+					}
+					jobs = append(jobs, job{h})
+				}
+			}
+		}
+	}
 	var steps, evals int64
 	ok := parallelFor(c, len(jobs), func(i int) {
 		n, _ := fam.Root()
